@@ -227,6 +227,30 @@ def mutation_table():
         ("tridiagonalize", lambda X: d.tridiag.tridiagonalize(X), [H]),
         ("quaternion_eigendecomposition", lambda X: d.eigen.quaternion_eigendecomposition(X), [H]),
         ("hessenbergize", lambda X: d.hess.hessenbergize(X), [Sq]),
+        ("quaternion_eigenvalues", lambda X: d.eigen.quaternion_eigenvalues(X), [H]),
+        ("quaternion_eigenvectors", lambda X: d.eigen.quaternion_eigenvectors(X), [H]),
+        ("verify_eigendecomposition", lambda X: d.eigen.verify_eigendecomposition(X, *d.eigen.quaternion_eigendecomposition(X)), [H]),
+        ("verify_lu_decomposition", lambda X: d.LU.verify_lu_decomposition(X, *d.LU.quaternion_lu(X)), [Sq]),
+        ("quaternion_modulus", lambda X: d.LU.quaternion_modulus(X), [A]),
+        ("quaternion_triu", lambda X: d.LU.quaternion_triu(X), [A]),
+        ("quaternion_tril", lambda X: d.LU.quaternion_tril(X, -1), [A]),
+        ("induced_matrix_norm_1", lambda X: u.induced_matrix_norm_1(X), [A]),
+        ("induced_matrix_norm_inf", lambda X: u.induced_matrix_norm_inf(X), [A]),
+        ("spectral_norm_2", lambda X: u.spectral_norm_2(X), [A]),
+        ("normQ", lambda X: u.normQ(X), [A]),
+        ("quat_null_right", lambda X: u.quat_null_right(X), [A]),
+        ("quat_null_left", lambda X: u.quat_null_left(X), [A]),
+        ("quat_kernel", lambda X: u.quat_kernel(X, "left"), [A]),
+        ("check_tridiagonal", lambda X: d.tridiag.check_tridiagonal(X), [H]),
+        ("internal_tridiagonalizer", lambda X: d.tridiag.internal_tridiagonalizer(X), [H]),
+        ("check_hessenberg", lambda X: d.hess.check_hessenberg(X), [Sq]),
+        ("is_hessenberg", lambda X: d.hess.is_hessenberg(X), [Sq]),
+        ("quaternion_schur_pure", lambda X: d.schur.quaternion_schur_pure(X, max_iter=10), [Sq]),
+        ("quaternion_schur_pure_implicit", lambda X: d.schur.quaternion_schur_pure_implicit(X, max_iter=10), [Sq]),
+        ("quaternion_schur_experimental", lambda X: d.schur.quaternion_schur_experimental(X, max_iter=10), [Sq]),
+        ("tensor_frobenius_norm", lambda X: t.tensor_frobenius_norm(X), [T3]),
+        ("tensor_entrywise_abs", lambda X: t.tensor_entrywise_abs(X), [T3]),
+        ("DeepLinear.compute", lambda X: s.DeepLinearNewtonSchulz(max_iter=2).compute(X, [3, 2, 4])[0], [A]),
         ("quaternion_schur", lambda X: d.schur.quaternion_schur(X, max_iter=20), [Sq]),
         ("quaternion_schur_unified(rayleigh)", lambda X: d.schur.quaternion_schur_unified(X, variant="rayleigh", max_iter=20), [Sq]),
         ("quaternion_schur_unified(aed)", lambda X: d.schur.quaternion_schur_unified(X, variant="aed", max_iter=20), [Sq]),
@@ -237,7 +261,7 @@ def mutation_table():
         ("QGMRES.solve", lambda X, y: s.QGMRESSolver(tol=1e-8).solve(X, y), [Sq + 3 * np.eye(4)[:, :, None] * [1.0, 0, 0, 0], b]),
         ("QGMRES.solve(left_lu)", lambda X, y: s.QGMRESSolver(tol=1e-8, preconditioner="left_lu").solve(X, y), [Sq + 3 * np.eye(4)[:, :, None] * [1.0, 0, 0, 0], b]),
         ("NS.compute", lambda X: s.NewtonSchulzPseudoinverse(max_iter=5).compute(X), [A]),
-        ("HON.compute", lambda X: s.HigherOrderNewtonSchulzPseudoinverse(max_iter=3).compute(X), [A]),
+        ("HON.compute", lambda X: s.HigherOrderNewtonSchulzPseudoinverse(max_iter=3).compute(X)[:2], [A]),     # third value: wall-clock times
         ("RSP.compute", lambda X: s.RandomizedSketchProjectPseudoinverse(block_size=2, max_iter=4, test_sketch_size=2).compute(X), [A]),
         ("CGNE.compute", lambda X: s.CGNEQSolver(max_iter=5).compute(X), [A]),
         ("Hybrid.compute", lambda X: s.HybridRSPNewtonSchulz(r=2, T=1, max_iter=3).compute(X), [A]),
@@ -370,7 +394,9 @@ def _relayout(a, how):
 
 DIRECT = ("quat_matmat", "quat_hermitian", "quat_frobenius_norm", "matrix_norm(2)", "real_expand", "quaternion_to_complex_adjoint",
           "rank", "det(Dieudonne)", "ishermitian", "classical_qsvd_full", "classical_qsvd", "qr_qua", "quaternion_lu(2)", "quaternion_lu(3)",
-          "hessenbergize", "tridiagonalize", "tensor_unfold", "tensor_unfold(0)", "tensor_unfold(2)", "tensor_fold", "quat_null_space")
+          "hessenbergize", "tridiagonalize", "tensor_unfold", "tensor_unfold(0)", "tensor_unfold(2)", "tensor_fold", "quat_null_space",
+          "quaternion_modulus", "quaternion_triu", "quaternion_tril", "induced_matrix_norm_1", "induced_matrix_norm_inf", "spectral_norm_2", "normQ",
+          "check_hessenberg", "is_hessenberg", "tensor_frobenius_norm", "tensor_entrywise_abs", "verify_lu_decomposition")
 
 
 def _layout_events(tid0):
@@ -406,6 +432,36 @@ def _layout_events(tid0):
             except Exception:
                 same = False
             ev.append({"tid": tid, "ev": "Layout", "fn": name, "layout": how, "same": bool(same)})
+    return ev
+
+
+def _stale_events(tid0):
+    """a function called again after its argument was modified IN PLACE must answer for the new contents"""
+    tab, floats, comp, sp = mutation_table()
+    ev = []
+    tid = tid0
+    for name, f, args in tab:
+        if name.startswith(("RSP", "Hybrid", "rand_qsvd", "pass_eff", "power_iteration")):
+            continue                                     # randomized: compared under seeds elsewhere
+        tid += 1
+        qa = [q_from_float(a) if a.ndim == 3 else quaternion.as_quat_array(a.copy()) for a in args]
+        def update(x):                                   # the in-place update applied to the caller's array
+            x *= 2.0
+            if x.ndim == 2 and x.shape[0] > 1:
+                x[0, 0] = x[0, 0] + quaternion.quaternion(1.0, 0, 0, 0)
+        try:
+            with contextlib.redirect_stdout(io.StringIO()):
+                # expected answer FIRST, on an array object the function will never see again
+                want = [x.copy() for x in qa]
+                update(want[0])
+                fresh = f(*want)
+                f(*qa)
+                update(qa[0])                            # same object, new contents
+                second = f(*qa)
+            same = _numeric_close(second, fresh)
+        except Exception:
+            same = False
+        ev.append({"tid": tid, "ev": "Stale", "fn": name, "same": bool(same)})
     return ev
 
 
@@ -544,6 +600,7 @@ def run(ctx, replay=None):
     events += _mutation_events(900000)
     events += _seeded_events(910000)
     events += _layout_events(915000)
+    events += _stale_events(917000)
     sev, copies = _style_events(920000)
     events += sev
     ctx.notes["package_import_also_loads_toplevel_modules"] = copies
@@ -563,12 +620,12 @@ def run(ctx, replay=None):
         if key in seen:
             continue
         seen.add(key)
-        cls = {"Construct": "history", "Mutation": "mutation-table", "Seeded": "seeded", "Style": "import-style", "Layout": "memory-layout"}[head["ev"]]
+        cls = {"Construct": "history", "Mutation": "mutation-table", "Seeded": "seeded", "Style": "import-style", "Layout": "memory-layout", "Stale": "in-place-update-history"}[head["ev"]]
         ctx.fail(fn, clause, cls, {"events": es[:5]})
     for e in events:
         if e["ev"] != "Construct":
             ctx.case((e["tid"], e.get("step"), e["ev"]))
-    ctx.replays = sum(1 for e in events if e["ev"] in ("Call", "Mutation", "Seeded", "Style", "Layout"))
+    ctx.replays = sum(1 for e in events if e["ev"] in ("Call", "Mutation", "Seeded", "Style", "Layout", "Stale"))
     ctx.count("SameAsFreshObject", sum(1 for e in events if e["ev"] == "Call"))
     ctx.count("ArgumentsUnchanged", sum(1 for e in events if e["ev"] in ("Call", "Mutation")))
     ctx.sample({"direction": "F", "history": [e for e in events if e["ev"] in ("Construct", "Call")][:4]})
